@@ -14,7 +14,9 @@ func Basic(prop, family string, r *vsched.Result, allowParked func(p vsched.Park
 		fs = append(fs, vsched.Failure{Key: fmt.Sprintf("%s|%s|panic|%s|%s", prop, family, p.Site, short(p.Value)),
 			Text: fmt.Sprintf("goroutine %s panicked at %s: %s (in real Go this kills the process)", p.Thread, p.Site, p.Value)})
 	}
-	if len(r.Panics) == 0 && r.Cap == "" {
+	// (an execution that was cut short - a panic, a step cap, a failed invariant - leaves threads parked
+	// that are not stuck: only a run that ended by itself is examined for blocked threads)
+	if len(r.Panics) == 0 && r.Cap == "" && r.InvFail == "" {
 		for _, p := range r.Parked {
 			if p.User && (allowParked == nil || !allowParked(p)) {
 				fs = append(fs, vsched.Failure{Key: fmt.Sprintf("%s|%s|blocked-forever|%s|%s", prop, family, trimDigits(p.Thread), opKind(p.Op)),
